@@ -223,10 +223,12 @@ def run_verus_unit(name, prop, tier, keep=False):
     lines = text.splitlines()
     # assumptions: every external_body / assume in the generated file, with its tag
     for i, ln in enumerate(lines):
+        if ln.lstrip().startswith("//"):
+            continue
         if "external_body" in ln or re.search(r'\bassume\(|\badmit\(', ln):
             tag = ""
             for k in range(i, max(i - 6, -1), -1):
-                mm = re.search(r'//\s*(proved-by:.*|assumed:.*|R\d+ target.*)', lines[k])
+                mm = re.search(r'//\s*(proved-by:.*|assumed:.*|R\d+ target.*|argument-contract.*)', lines[k])
                 if mm:
                     tag = mm.group(1).strip()
                     break
